@@ -479,7 +479,7 @@ def _jobs_for(prop, tier):
         return [j for j in jobs_option_below(tier) if j[1][3] == 'combinations'] + jobs_combinations(tier) + jobs_axis0(tier, 'combinations') + jobs_record_below(tier, ('combinations',))
     if prop == 'C03':
         return jobs_c03(tier) + jobs_option_reduce(tier) + jobs_axis(tier, ('reduce',)) + jobs_reduce_nonlocal(tier) + jobs_unmasked_passthrough(('reduce_next',)) + jobs_record_reduce(tier)
-    return {'C02': (lambda t: jobs_c02(t) + jobs_numpy_toregular(t) + jobs_regular_getitem_jagged(t) + jobs_list_asslice(t) + jobs_indexed_widths(t)), 'C03': jobs_c03, 'C04': (lambda t: jobs_c04(t) + jobs_numpy_toregular(t)), 'C06': (lambda t: jobs_c06(t) + jobs_axis(t, ('sort', 'argsort')) + jobs_numpy_sort(t) + jobs_sort_nonlocal(t) + jobs_option_sort(t) + jobs_option_sort_above(t) + jobs_option_argsort(t) + jobs_string_argsort(t) + jobs_unmasked_passthrough(('sort_next', 'argsort_next'))), 'C08': (lambda t: jobs_c08(t) + jobs_numpy(t) + jobs_numpy_types(t) + jobs_union(t) + jobs_reverse_merge(t) + jobs_record_merge(t) + jobs_list_merge(t) + [j for j in jobs_record_named(t) if j[0] is h_record_mergemany_named] + jobs_merge_union(t) + jobs_union_ops(t)), 'C17': (lambda t: jobs_c17(t) + jobs_record_keys(t) + jobs_record_key_at(t) + jobs_node_form(t)), 'C12': (lambda t: jobs_numpy(t) + jobs_numpy_astype(t) + [(h_index_alloc, (), 900)] + [(h_axis0, (L_, 'combinations', n_, True), 900) for L_, n_ in ((1, 2), (2, 3), (1, 3), (0, 2))] + [j for j in jobs_numpy_getitem(t) if j[1][3] == 'array']), 'C10': (lambda t: jobs_c10(t) + [j for j in jobs_record_named(t) if j[0] is h_record_field_key] + jobs_project(t) + [j for j in jobs_option_below(t) if j[1][3] in ('getitem_field', 'getitem_fields')] + jobs_record_setitem(t) + jobs_record_key_at(t)), 'C05': jobs_c05, 'C09': jobs_c09}.get(prop, lambda t: [])(tier)
+    return {'C02': (lambda t: jobs_c02(t) + jobs_numpy_toregular(t) + jobs_regular_getitem_jagged(t) + jobs_list_asslice(t) + jobs_indexed_widths(t)), 'C03': jobs_c03, 'C04': (lambda t: jobs_c04(t) + jobs_numpy_toregular(t)), 'C06': (lambda t: jobs_c06(t) + jobs_axis(t, ('sort', 'argsort')) + jobs_numpy_sort(t) + jobs_sort_nonlocal(t) + jobs_option_sort(t) + jobs_option_sort_above(t) + jobs_option_argsort(t) + jobs_string_argsort(t) + jobs_unmasked_passthrough(('sort_next', 'argsort_next'))), 'C08': (lambda t: jobs_c08(t) + jobs_numpy(t) + jobs_numpy_types(t) + jobs_union(t) + jobs_reverse_merge(t) + jobs_record_merge(t) + jobs_list_merge(t) + [j for j in jobs_record_named(t) if j[0] is h_record_mergemany_named] + jobs_merge_union(t) + jobs_union_ops(t)), 'C17': (lambda t: jobs_c17(t) + jobs_record_keys(t) + jobs_record_key_at(t) + jobs_node_form(t) + jobs_numpy_form(t)), 'C12': (lambda t: jobs_numpy(t) + jobs_numpy_astype(t) + [(h_index_alloc, (), 900)] + [(h_axis0, (L_, 'combinations', n_, True), 900) for L_, n_ in ((1, 2), (2, 3), (1, 3), (0, 2))] + [j for j in jobs_numpy_getitem(t) if j[1][3] == 'array']), 'C10': (lambda t: jobs_c10(t) + [j for j in jobs_record_named(t) if j[0] is h_record_field_key] + jobs_project(t) + [j for j in jobs_option_below(t) if j[1][3] in ('getitem_field', 'getitem_fields')] + jobs_record_setitem(t) + jobs_record_key_at(t)), 'C05': jobs_c05, 'C09': jobs_c09}.get(prop, lambda t: [])(tier)
 
 
 # ------------------------------------------------------------------------------------------------ C01: getitem_next of list nodes
@@ -5708,6 +5708,84 @@ def jobs_node_form(tier):
     js += [(h_node_form, ('ByteMaskedArray', v), 900) for v in (True, False)]
     js += [(h_node_form, ('BitMaskedArray', v), 900) for v in ((True, True), (False, True), (True, False), (False, False))]
     return js
+
+
+@guard
+def h_numpy_form(shape, dtype):
+    """NumpyArray::form: a NumpyForm whose inner shape is the array's shape without its first dimension, whose item size, format and dtype are
+    the array's, and which says "no identities" for an array without them"""
+    nc = NodeCtx(['NA', 'IDX', 'CNT', 'UTL', 'KD', 'IDS'], [], unwind=max(16, 4 * len(shape) + 12))
+    nc.m.eng.stubs.update(string_stubs(nc))
+    this, elems = build_numpynd(nc, 'np', tuple(shape), dtype)[:2]
+    code, kind, isz, fmt, sgn = NP_DTYPES[dtype]
+    from .mharness import module_of as _mo
+    foffs, fsize, fal, ffields = _mo(SRC['NA']).types.struct_layout('%"class.awkward::NumpyForm"')
+    nc.m.record('ret', {})
+    out = nc.m.call('_ZNK7awkward10NumpyArray4formEb', [Ptr('ret', 0), this, z3.BitVecVal(1, 1)])
+    obls = [('form does not raise', out.raised)]
+    res = out.mem.o['ret'].cells[0][0]
+    for g, q in nodeh.ptr_cases(res):
+        g = z3.And(g, z3.Not(out.raised))
+        if q.obj is None:
+            obls.append(('a form is returned', g))
+            continue
+        o = out.mem.o[q.obj]
+        vp = [str(qq.obj) for gg, qq in nodeh.ptr_cases(o.cells[q.off][0]) if qq.obj is not None]
+        if not (vp and 'N7awkward9NumpyFormE' in vp[0]):
+            obls.append(('the form is a NumpyForm (%s)' % (vp[:1],), g))
+            continue
+        hid = o.cells.get(q.off + 8)
+        obls.append(('an array without identities says so', z3.And(g, (hid[0] if hid else BV(1, 8)) != 0)))
+        b, e = o.cells.get(q.off + foffs[1]), o.cells.get(q.off + foffs[1] + 8)
+        inner = list(shape[1:])
+        bc = [qq for gg, qq in nodeh.ptr_cases(b[0]) if qq.obj is not None] if b else []
+        ec = [qq for gg, qq in nodeh.ptr_cases(e[0]) if qq.obj is not None] if e else []
+        if not inner:
+            obls.append(('no inner dimensions', z3.And(g, z3.BoolVal(bool(bc) and bool(ec) and not nodeh.same_off(bc[0].off, ec[0].off)))))
+        elif not bc or not ec or not isinstance(bc[0].off, int) or not isinstance(ec[0].off, int):
+            obls.append(('the inner shape can be read back', g))
+        else:
+            obls.append(('%d inner dimensions' % len(inner), z3.And(g, z3.BoolVal(ec[0].off - bc[0].off != 8 * len(inner)))))
+            vo = out.mem.o[bc[0].obj]
+            for k_, d_ in enumerate(inner):
+                c = vo.cells.get(bc[0].off + 8 * k_) if hasattr(vo, 'cells') else (z3.Select(vo.arr, BV(bc[0].off + k_)), 8)
+                obls.append(('inner dimension %d is %d' % (k_, d_), z3.And(g, (c[0] != d_) if c is not None else z3.BoolVal(True))))
+        c = o.cells.get(q.off + foffs[2])
+        obls.append(('the item size is %d' % isz, z3.And(g, (c[0] != isz) if c is not None else z3.BoolVal(True))))
+        c = o.cells.get(q.off + foffs[4])
+        obls.append(('the dtype is %s' % dtype, z3.And(g, (c[0] != z3.BitVecVal(code, 32)) if c is not None else z3.BoolVal(True))))
+        t = _read_string(out.mem, Ptr(q.obj, q.off + foffs[3]))
+        obls.append(('the format is "%s" (%r)' % (fmt, t), z3.And(g, z3.BoolVal(t != fmt))))
+
+    def replay(model, ent):
+        total = 1
+        for x in shape:
+            total *= x
+        prog = 'i64nd %d %s %s ' % (len(shape), ' '.join(map(str, shape)), ' '.join('1' for _ in range(total)))
+        if dtype != 'int64':
+            prog += 'astype %s ' % dtype
+        prog += 'formjson'
+        kind_, got = fullnative.akrun(prog)
+        payload = dict(program=prog, native=[kind_, got])
+        want_inner = list(shape[1:])
+        prim = got if isinstance(got, str) else (got.get('primitive') if isinstance(got, dict) else None)
+        inner_ = [] if isinstance(got, str) else (got.get('inner_shape', []) if isinstance(got, dict) else None)
+        ok = kind_ == 'OK' and prim == NP_PRIMITIVE[dtype] and inner_ == want_inner and (not isinstance(got, dict) or (got.get('itemsize', isz) == isz and got.get('format', fmt) == fmt))
+        if not ok:
+            return True, 'form of a NumpyArray of shape %s and dtype %s: native library %s %s' % (list(shape), dtype, kind_, str(got)[:200]), payload
+        return False, 'native form agrees (%s)' % str(got)[:80], payload
+    return mdischarge(nc.m, 'NumpyArray::form shape=%s dtype=%s' % (list(shape), dtype), obls, [], replay=replay,
+                      extra=dict(bounds='shape and dtype concrete (case split); buffer contents symbolic'))
+
+
+NP_PRIMITIVE = {'int64': 'int64', 'int32': 'int32', 'uint8': 'uint8', 'float64': 'float64', 'bool': 'bool', 'uint32': 'uint32', 'int8': 'int8', 'int16': 'int16', 'uint16': 'uint16', 'uint64': 'uint64', 'float32': 'float32'}
+
+
+def jobs_numpy_form(tier):
+    q = [((3,), 'int64'), ((2, 3), 'int32'), ((2, 0, 2), 'uint8'), ((0,), 'float64')]
+    if tier != 'quick':
+        q += [((1, 2, 3), 'float64'), ((2, 1), 'bool'), ((4,), 'uint32'), ((0, 3), 'int64')]
+    return [(h_numpy_form, a, 900) for a in q]
 
 
 def jobs_record_keys(tier):
